@@ -3,6 +3,7 @@ package sam
 import (
 	"errors"
 	"io"
+	"runtime"
 	"sync"
 
 	"github.com/virus-evolution/gofasta/pkg/fastaio"
@@ -14,6 +15,12 @@ import (
 // ToMultiAlign converts a SAM file containing pairwise alignments between assembled genomes to a fasta-format alignment.
 // Insertions relative to the reference are discarded, so all the sequences are the same (=reference) length
 func ToMultiAlign(samIn io.Reader, out io.Writer, wrap int, trimstart int, trimend int, pad bool, threads int) error {
+
+	// as in closest: no usable thread count means "as many as there are processors" (a pool of no workers would
+	// leave every record in its channel)
+	if threads < 1 {
+		threads = runtime.NumCPU()
+	}
 
 	cSR := make(chan samRecords, threads)
 	cReadDone := make(chan bool)
